@@ -235,7 +235,10 @@ func (set *TemplateSet) FromFile(filename string) (*Template, error) {
 func (set *TemplateSet) RenderTemplateString(s string, ctx Context) (string, error) {
 	atomic.StoreUint32(&set.firstTemplateCreated, 1)
 
-	tpl := Must(set.FromString(s))
+	tpl, err := set.FromString(s)
+	if err != nil {
+		return "", err
+	}
 	result, err := tpl.Execute(ctx)
 	if err != nil {
 		return "", err
@@ -247,7 +250,10 @@ func (set *TemplateSet) RenderTemplateString(s string, ctx Context) (string, err
 func (set *TemplateSet) RenderTemplateBytes(b []byte, ctx Context) (string, error) {
 	atomic.StoreUint32(&set.firstTemplateCreated, 1)
 
-	tpl := Must(set.FromBytes(b))
+	tpl, err := set.FromBytes(b)
+	if err != nil {
+		return "", err
+	}
 	result, err := tpl.Execute(ctx)
 	if err != nil {
 		return "", err
@@ -259,7 +265,10 @@ func (set *TemplateSet) RenderTemplateBytes(b []byte, ctx Context) (string, erro
 func (set *TemplateSet) RenderTemplateFile(fn string, ctx Context) (string, error) {
 	atomic.StoreUint32(&set.firstTemplateCreated, 1)
 
-	tpl := Must(set.FromFile(fn))
+	tpl, err := set.FromFile(fn)
+	if err != nil {
+		return "", err
+	}
 	result, err := tpl.Execute(ctx)
 	if err != nil {
 		return "", err
